@@ -268,6 +268,10 @@ def handleLex (cmd arg : String) : Option String :=
   if !cmd.startsWith "lex." then none else
   some <|
   match cmd with
+  | "lex.scope" =>
+    match whole (parseXItem (tokenize arg)) with
+    | some t => if inScope t then "ok 1" else "ok 0"
+    | none => "bad-op"
   | "lex.xmlw" =>
     let (f, body) := splitFirst arg
     match parseFmt f, whole (parseXItem (tokenize body)) with
